@@ -49,6 +49,12 @@ import Driver.Util
          err=<0|1> files=<path>:<summ>;…           (dir: the files written; write: every file)
     fmtc stdout|file <old> <file>;<file>;…         the same on the contents (<file> as for fmtw, <old> hex)
       -> err=<0|1> out=<content>   (hex)
+    imp <files> <wkt> <path> <file> <line> <col>   one import statement `import "<path>";` in <file>
+                 (hex; position of the path literal) against a module set with the .proto files
+                 <files> and the Well-Known Types <wkt> (hex;hex;…  "-" = none)
+      -> build=<exit>:<printed>:<failure> at=<file>:<line>:<col> deps=<exit>:<printed>:<failure>
+         build: what bufimage.BuildImage returns, through a controller method + wrapError
+         (at = the first annotation, "-" without one); deps: what ModuleDeps() returns, directly
 -/
 namespace Driver.C20
 open BufModel.Annot Driver
@@ -282,7 +288,29 @@ def showErrOutcome (o : Outcome) : String :=
   "exit=" ++ toString o.exit ++ " printed=" ++ toString o.printed.length
     ++ " failure=" ++ (if o.failureLine then "1" else "0")
 
+def decStrs (s : String) : Option (List Str) :=
+  if s = "-" then some [] else (s.splitOn ";").mapM decStr
+
+def showTriple (o : Outcome) : String :=
+  toString o.exit ++ ":" ++ toString o.printed.length ++ ":" ++ (if o.failureLine then "1" else "0")
+
+def stepOutcome (via : Bool) : Step → Outcome
+  | none => Outcome.ok
+  | some e => if via then failStep e [] else failDirect e
+
+def handleImp (files wkt path file line col : String) : String :=
+  match decStrs files, decStrs wkt, decStr path, decStr file, line.toNat?, col.toNat? with
+  | some files, some wkt, some p, some f, some l, some c =>
+    let a : Annot := { file := some f, sl := l, sc := c, el := l, ec := c, type := "COMPILE".toList, msg := [], plugin := [] }
+    let b := stepOutcome true (buildImageErr a (importFate files wkt p))
+    let at_ := match b.printed with
+      | x :: _ => encS (x.file.getD []) ++ ":" ++ toString x.sl ++ ":" ++ toString x.sc
+      | [] => "-"
+    "build=" ++ showTriple b ++ " at=" ++ at_ ++ " deps=" ++ showTriple (stepOutcome false (moduleDepsErr files wkt p))
+  | _, _, _, _, _, _ => "bad-op"
+
 def handle : List String → String
+  | ["imp", files, wkt, path, file, line, col] => handleImp files wkt path file line col
   | ["ann", s] => match decAnnots s with
       | some as => handleAnn as
       | none => "bad-op"
